@@ -62,7 +62,7 @@ ENV = {
     "dbc": dict(ecus=True, ecu_comments=True, frame_comments=True, signal_comments=True, multiline=True, senders="many", receivers=True,
                 motorola=True, signed=True, floats=True, mux=["none", "none", "simple", "extended"], values=True, neg_values=True,
                 attributes=["net", "ecu", "frame", "signal"], attr_types=["INT", "HEX", "FLOAT", "STRING", "ENUM"], unit_max=32, nonascii=True,
-                limits=True, ext=True, unique_signals=False, static_with_mux=True, min_len=1, mux_named=True, groups=True),
+                limits=True, ext=True, unique_signals=False, static_with_mux=True, min_len=1, mux_named=True, groups=True, value_tables=True),
     "dbf": dict(ecus=True, ecu_comments=True, frame_comments=True, signal_comments=True, multiline=False, senders="one", receivers=True,
                 motorola=True, signed=True, floats=True, mux=["none", "none", "simple"], values=True, neg_values=False,
                 attributes=["net", "ecu", "frame", "signal"], attr_types=["INT", "HEX"], unit_max=16, nonascii=True,
@@ -201,6 +201,11 @@ def gen_desc(rng, fmt, size="small"):
                 out[d["name"]] = rng.choice(["x", "hello world", "a;b", "v1.2"])
         return out
     desc["net_attributes"] = attr_values("net")
+    if env.get("value_tables") and rng.random() < 0.4:
+        desc["value_tables"] = {}
+        for i in range(rng.randrange(1, 3)):
+            keys = sorted({rng.randrange(0, 16) for _ in range(rng.randrange(1, 5))})
+            desc["value_tables"]["Vt%s%d" % (rng.choice(NAME_POOL), i)] = dict(zip(keys, rng.sample(LABELS, len(keys))))
     for e in desc["ecus"]:
         e["attributes"] = attr_values("ecu")
 
